@@ -382,6 +382,28 @@ impl<T: Ord> vstd::std_specs::cmp::OrdSpecImpl for OrdLattice<T> {
 UNIT = r'''
 '''
 
+ARRAY = r'''
+// Product<[T; N]>: the product order of the real partial_cmp (loop over 0..N with early returns), for EVERY N and T.
+// (meet_mut / join_mut iterate `iter_mut().zip(array)`, whose Zip/array::IntoIter ghost protocol this Verus version does not
+// specify: they are decided by the Kani harnesses agrees_array0..4.)
+pub open spec fn arr_cmp<T: PartialOrd, const N: usize>(a: [T; N], b: [T; N], n: int) -> Option<Ordering> {
+    if forall|i: int| 0 <= i < n ==> ord_eq(#[trigger] a[i].partial_cmp_spec(&b[i])) { Some(Ordering::Equal) }
+    else if forall|i: int| 0 <= i < n ==> ord_le(#[trigger] a[i].partial_cmp_spec(&b[i])) { Some(Ordering::Less) }
+    else if forall|i: int| 0 <= i < n ==> ord_ge(#[trigger] a[i].partial_cmp_spec(&b[i])) { Some(Ordering::Greater) }
+    else { None }
+}
+impl<const N: usize, T: PartialOrd> vstd::std_specs::cmp::PartialOrdSpecImpl for Product<[T; N]> {
+    open spec fn obeys_partial_cmp_spec() -> bool { T::obeys_partial_cmp_spec() }
+    // Equal iff all components Equal; Less iff all <=; Greater iff all >=; otherwise incomparable
+    open spec fn partial_cmp_spec(&self, other: &Self) -> Option<Ordering> { arr_cmp(self.0, other.0, N as int) }
+}
+//@impl ascent_base lattice::product | impl<const N: usize, T: PartialOrd> PartialOrd for Product<[T; N]>
+//@fn partial_cmp
+//@loop 1
+         invariant T::obeys_partial_cmp_spec() ==> Some(ord) == arr_cmp(self.0, other.0, i as int),
+//@end
+'''
+
 CONSTPROP = r'''
 //@type ascent_base lattice::constant_propagation | ConstPropagation
 impl<T: PartialEq> vstd::std_specs::cmp::PartialOrdSpecImpl for ConstPropagation<T> {
@@ -553,5 +575,5 @@ def template(max_arity=MAX_ARITY):
         parts.append(product(n))
     for n in range(1, max_arity + 1):
         parts.append(tuple_(n))
-    parts += [CONSTPROP, WITNESSES, EPILOGUE]
+    parts += [ARRAY, CONSTPROP, WITNESSES, EPILOGUE]
     return ''.join(parts)
